@@ -4,6 +4,10 @@
   where the nodes of an edited group come from, composition laws.
 -/
 import Verif.Lemmas.C17
+import Mathlib.Algebra.Order.Field.Power
+import Mathlib.Tactic.Positivity
+import Mathlib.Tactic.NormNum
+import Mathlib.Algebra.Order.Archimedean.Basic
 
 namespace Verif.C17
 open Verif.Py
@@ -536,6 +540,204 @@ theorem exported_rows_shape (k : Kymo) (sample : Option (Int → Rat → Int)) (
     have := (List.all_eq_true.1 hall) p.1 hm
     simp only [if_true, Option.isSome_map]
     exact this
+
+
+/-! ### `%.6e`: exponent search, rounding, idempotence, accuracy -/
+
+theorem pow10_eq_zpow (e : Int) : pow10 e = (10 : Rat) ^ e := by
+  unfold pow10
+  split
+  · rename_i h
+    obtain ⟨n, rfl⟩ := Int.eq_ofNat_of_zero_le h
+    simp
+  · rename_i h
+    obtain ⟨n, hn⟩ : ∃ n : Nat, -e = n := ⟨(-e).toNat, by omega⟩
+    have he : e = -(n : Int) := by omega
+    rw [hn, he]
+    simp
+
+theorem pow10_pos (e : Int) : 0 < pow10 e := by
+  rw [pow10_eq_zpow]; positivity
+
+theorem pow10_lt {a b : Int} (h : a < b) : pow10 a < pow10 b := by
+  rw [pow10_eq_zpow, pow10_eq_zpow]
+  exact zpow_lt_zpow_right₀ (by norm_num) h
+
+theorem pow10_le {a b : Int} (h : a ≤ b) : pow10 a ≤ pow10 b := by
+  rw [pow10_eq_zpow, pow10_eq_zpow]
+  exact zpow_le_zpow_right₀ (by norm_num) h
+
+theorem pow10_add (a b : Int) : pow10 (a + b) = pow10 a * pow10 b := by
+  simp only [pow10_eq_zpow]
+  exact zpow_add₀ (by norm_num) a b
+
+/-- `e` is the decimal exponent of `a` -/
+def IsExp (a : Rat) (e : Int) : Prop := pow10 e ≤ a ∧ a < pow10 (e + 1)
+
+theorem findExp_spec (a : Rat) (e0 : Int) (h : IsExp a e0) (fuel : Nat) (e : Int)
+    (hd : (e0 - e).natAbs ≤ fuel) : findExp a fuel e = e0 := by
+  induction fuel generalizing e with
+  | zero =>
+    have : e = e0 := by omega
+    subst this; rfl
+  | succ n ih =>
+    unfold findExp
+    by_cases h1 : a < pow10 e
+    · simp only [h1, if_true]
+      have : e0 < e := by
+        by_contra hc
+        have := pow10_le (not_lt.1 hc)
+        exact absurd (lt_of_lt_of_le h1 (le_trans this h.1)) (lt_irrefl _)
+      exact ih (e - 1) (by omega)
+    · simp only [h1, if_false]
+      by_cases h2 : pow10 (e + 1) ≤ a
+      · simp only [h2, if_true]
+        have : e < e0 := by
+          by_contra hc
+          have := pow10_le (show e0 + 1 ≤ e + 1 by omega)
+          exact absurd (lt_of_lt_of_le h.2 (le_trans this h2)) (lt_irrefl _)
+        exact ih (e + 1) (by omega)
+      · simp only [h2, if_false]
+        by_contra hne
+        rcases lt_or_gt_of_ne hne with hlt | hgt
+        · have := pow10_le (show e + 1 ≤ e0 by omega)
+          exact h2 (le_trans this h.1)
+        · have := pow10_le (show e0 + 1 ≤ e by omega)
+          exact h1 (lt_of_lt_of_le h.2 this)
+
+theorem roundHalfEven_int (n : Int) : roundHalfEven (n : Rat) = n := by
+  unfold roundHalfEven
+  simp
+
+theorem roundHalfEven_near (y : Rat) : |(roundHalfEven y : Rat) - y| ≤ 1 / 2 := by
+  unfold roundHalfEven
+  have h1 := Int.floor_le y
+  have h2 := Int.lt_floor_add_one y
+  have hf : (y.floor : Rat) = (⌊y⌋ : Rat) := rfl
+  simp only
+  split
+  · rename_i h
+    rw [abs_le]; constructor <;> linarith [hf]
+  · split
+    · rename_i h h'
+      push_cast
+      rw [abs_le]; constructor <;> linarith [hf]
+    · rename_i h h'
+      have : y - y.floor = 1 / 2 := le_antisymm (not_lt.1 h') (not_lt.1 h)
+      split
+      · rw [abs_le]; constructor <;> linarith [hf]
+      · push_cast
+        rw [abs_le]; constructor <;> linarith [hf]
+
+theorem roundHalfEven_mono_lo (y : Rat) (n : Int) (h : (n : Rat) ≤ y) : n ≤ roundHalfEven y := by
+  have hfl : n ≤ y.floor := Int.le_floor.2 h
+  unfold roundHalfEven
+  simp only
+  split
+  · exact hfl
+  · split
+    · omega
+    · split <;> omega
+
+theorem roundHalfEven_mono_hi (y : Rat) (n : Int) (h : y < (n : Rat)) : roundHalfEven y ≤ n := by
+  have hfl : y.floor < n := Int.floor_lt.2 h
+  unfold roundHalfEven
+  simp only
+  split
+  · omega
+  · split
+    · omega
+    · split <;> omega
+
+
+/-- the positive branch of `fmt6e` -/
+def fmtPos (a : Rat) : Rat :=
+  (roundHalfEven (a / pow10 (findExp a 1000 0 - 6)) : Rat) * pow10 (findExp a 1000 0 - 6)
+
+theorem fmt6e_eq (x : Rat) : fmt6e x = if x = 0 then 0 else if x < 0 then -fmtPos (-x) else fmtPos x := by
+  unfold fmt6e fmtPos
+  by_cases h0 : x = 0
+  · simp [h0]
+  · by_cases h1 : x < 0 <;> simp [h0, h1]
+
+theorem fmtPos_of_exp (a : Rat) (e : Int) (he : IsExp a e) (hb : e.natAbs ≤ 1000) :
+    fmtPos a = (roundHalfEven (a / pow10 (e - 6)) : Rat) * pow10 (e - 6) := by
+  unfold fmtPos
+  rw [findExp_spec a e he 1000 0 (by omega)]
+
+theorem pow10_six : pow10 6 = 1000000 := by rw [pow10_eq_zpow]; norm_num
+theorem pow10_seven : pow10 7 = 10000000 := by rw [pow10_eq_zpow]; norm_num
+theorem pow10_one : pow10 1 = 10 := by rw [pow10_eq_zpow]; norm_num
+
+theorem exists_exp (a : Rat) (ha : 0 < a) (hlo : pow10 (-1000) ≤ a) (hhi : a < pow10 1000) :
+    ∃ e : Int, IsExp a e ∧ -1000 ≤ e ∧ e ≤ 999 := by
+  obtain ⟨e, h1, h2⟩ := exists_mem_Ico_zpow (y := (10 : Rat)) ha (by norm_num)
+  rw [← pow10_eq_zpow] at h1 h2
+  refine ⟨e, ⟨h1, h2⟩, ?_, ?_⟩
+  · by_contra hc
+    have := pow10_le (show e + 1 ≤ -1000 by omega)
+    exact absurd (lt_of_lt_of_le h2 (le_trans this hlo)) (lt_irrefl _)
+  · by_contra hc
+    have := pow10_le (show (1000 : Int) ≤ e by omega)
+    exact absurd (lt_of_lt_of_le hhi (le_trans this h1)) (lt_irrefl _)
+
+theorem fmtPos_props (a : Rat) (ha : 0 < a) (hlo : pow10 (-1000) ≤ a) (hhi : a < pow10 1000) :
+    0 < fmtPos a ∧ fmtPos (fmtPos a) = fmtPos a ∧ |fmtPos a - a| ≤ a * (1 / 2000000) := by
+  obtain ⟨e, he, hel, heh⟩ := exists_exp a ha hlo hhi
+  have hP : 0 < pow10 (e - 6) := pow10_pos _
+  have hPne : pow10 (e - 6) ≠ 0 := ne_of_gt hP
+  have hE : pow10 e = pow10 (e - 6) * 1000000 := by
+    rw [← pow10_six, ← pow10_add]; congr 1; omega
+  have hE1 : pow10 (e + 1) = pow10 (e - 6) * 10000000 := by
+    rw [← pow10_seven, ← pow10_add]; congr 1; omega
+  have hy1 : (1000000 : Rat) ≤ a / pow10 (e - 6) := by
+    rw [le_div_iff₀ hP]; have := he.1; rw [hE] at this; linarith
+  have hy2 : a / pow10 (e - 6) < 10000000 := by
+    rw [div_lt_iff₀ hP]; have := he.2; rw [hE1] at this; linarith
+  have hm1 : (1000000 : Int) ≤ roundHalfEven (a / pow10 (e - 6)) :=
+    roundHalfEven_mono_lo _ 1000000 (by exact_mod_cast hy1)
+  have hm2 : roundHalfEven (a / pow10 (e - 6)) ≤ (10000000 : Int) :=
+    roundHalfEven_mono_hi _ 10000000 (by exact_mod_cast hy2)
+  rw [fmtPos_of_exp a e he (by omega)]
+  generalize hm : roundHalfEven (a / pow10 (e - 6)) = m at *
+  have hmq1 : (1000000 : Rat) ≤ (m : Rat) := by exact_mod_cast hm1
+  have hmq2 : (m : Rat) ≤ 10000000 := by exact_mod_cast hm2
+  have hvpos : 0 < (m : Rat) * pow10 (e - 6) := by
+    apply mul_pos _ hP; linarith
+  refine ⟨hvpos, ?_, ?_⟩
+  · by_cases hcase : m < 10000000
+    · have hmq3 : (m : Rat) < 10000000 := by exact_mod_cast hcase
+      have hv : IsExp ((m : Rat) * pow10 (e - 6)) e := by
+        constructor
+        · rw [hE]; nlinarith
+        · rw [hE1]; nlinarith
+      rw [fmtPos_of_exp _ e hv (by omega), mul_div_assoc, div_self hPne, mul_one, roundHalfEven_int]
+    · have hmeq : m = 10000000 := by omega
+      subst hmeq
+      have hv : IsExp (((10000000 : Int) : Rat) * pow10 (e - 6)) (e + 1) := by
+        constructor
+        · rw [hE1]; push_cast; linarith
+        · have : pow10 (e + 1 + 1) = pow10 (e - 6) * 100000000 := by
+            have h8 : pow10 8 = 100000000 := by rw [pow10_eq_zpow]; norm_num
+            rw [← h8, ← pow10_add]; congr 1; omega
+          rw [this]; push_cast; nlinarith
+      have hP5 : pow10 (e + 1 - 6) = pow10 (e - 6) * 10 := by
+        rw [← pow10_one, ← pow10_add]; congr 1; omega
+      rw [fmtPos_of_exp _ (e + 1) hv (by omega), hP5]
+      have : ((10000000 : Int) : Rat) * pow10 (e - 6) / (pow10 (e - 6) * 10) = ((1000000 : Int) : Rat) := by
+        push_cast; field_simp; norm_num
+      rw [this, roundHalfEven_int]
+      push_cast; ring
+  · have hnear := roundHalfEven_near (a / pow10 (e - 6))
+    rw [hm] at hnear
+    have h1 : (m : Rat) * pow10 (e - 6) - a = ((m : Rat) - a / pow10 (e - 6)) * pow10 (e - 6) := by
+      field_simp
+    rw [h1, abs_mul, abs_of_pos hP]
+    have h2 : pow10 (e - 6) ≤ a * (1 / 1000000) := by
+      have := he.1; rw [hE] at this; linarith
+    calc |(m : Rat) - a / pow10 (e - 6)| * pow10 (e - 6) ≤ 1 / 2 * pow10 (e - 6) :=
+          mul_le_mul_of_nonneg_right hnear (le_of_lt hP)
+      _ ≤ a * (1 / 2000000) := by linarith
 
 
 end Verif.C17
